@@ -1,7 +1,8 @@
 """C03 — bounded stand-in over program texts (see runtime/h_pipeline.py); contracts on the pipeline functions are added below as they are discharged."""
 ID = "C03"
 LEVEL = "exploration"
-FUNCTIONS = []
+FUNCTIONS = ['codelimit.common.Scanner:_read_file', 'codelimit.commands.check:check_file', 'codelimit.commands.check:check_command', 'codelimit.commands.check:_handle_file_path', 'codelimit.commands.scan:_read_cached_report']
+BOUNDED_SKIP = ['codelimit.common.Scanner:_read_file', 'codelimit.commands.check:check_file', 'codelimit.commands.check:check_command', 'codelimit.commands.check:_handle_file_path', 'codelimit.commands.scan:_read_cached_report']
 TRUSTED = ["Pygments lexers (exercised, not verified)", "the canonical-program generator's expected values (computed from the derivation)"]
 ASSUMPTIONS = []
 BOUND = "per language: every canonical program, ~40 prefixes/suffixes/line deletions/duplications/swaps of every 8th program, 150 random token soups (<= 10 tokens over the language's lexical alphabet), 16 edge texts (quick ~3500 texts; thorough ~8x)"
